@@ -7,9 +7,7 @@
      l : listing                 the input tree: path -> file (contents, mtime) | directory; a modification time is
                                  any integer (Z, nanoseconds relative to the Unix epoch): before the epoch, the
                                  epoch, equal times, times one nanosecond apart, the far future - no sign or
-                                 size assumption anywhere; the one condition (wf_tree, mtime_ok) is that a template
-                                 outside skipped directories is dated after Go's zero time.Time (year 1), without
-                                 which the statement is false: C15_zero_time_refuted
+                                 size assumption anywhere (wf_tree says nothing about times)
      generate                    oracle: parse + generate + gofmt of one file alone (None = cannot be generated)
      es                          the events of the run: everything WalkFiles emits, each once, plus possibly
                                  _templ.go files created by a handler while the walk was still going
@@ -61,26 +59,30 @@ Example C15_ex_root_name_irrelevant :
   /\ tree (run ex_gen false false 5%Z (init (lookup ex_tree)) (walk ex_tree)) ([], bs "a_templ.go") = Some (File (bs "code") 5%Z).
 Proof. vm_compute. split; reflexivity. Qed.
 
-(* MODIFICATION TIMES.  UpsertLastModTime compares a file's time with the zero time.Time when it sees the file for
-   the first time; a template dated at or before 0001-01-01T00:00:00Z is "not updated": the command succeeds and
-   the template has no sibling - the full statement (no condition on times) is false of the model, and of the real
-   command on a file system that can hold such a time (tmpfs; observed by the harness when one is available). *)
+(* REGRESSION WITNESS (about the behaviour BEFORE commit 103800e, not about the current code): UpsertLastModTime
+   compared a file seen for the first time with the zero time.Time; a template dated at or before
+   0001-01-01T00:00:00Z was "not updated" (effect_zero_compared): the command succeeded and the template had no
+   sibling.  The harness reports that behaviour under the shape template-mtime-not-after-go-zero-time. *)
 Definition ex_zero_tree (mt : Z) : listing := [(([], bs "a.templ"), File (bs "src") mt)].
-Lemma C15_zero_time_refuted :
-  exists (c : cfg),
-    steps ex_gen false false 5%Z 1 (start_cfg (lookup (ex_zero_tree go_zero_time)) (walk (ex_zero_tree go_zero_time))) c
-    /\ finished c /\ exit_fail (cerrs c) = false
-    /\ ~ spec_holds ex_gen false (ex_zero_tree go_zero_time) (ctree c) (exit_fail (cerrs c)).
+Lemma C15_zero_time_variant_refuted :
+  let st := run_zero_compared ex_gen false false 5%Z (init (lookup (ex_zero_tree go_zero_time))) (walk (ex_zero_tree go_zero_time)) in
+  wf_tree ex_gen false (bs "proj") (ex_zero_tree go_zero_time) = true /\
+  exit_fail (errs st) = false /\
+  ~ spec_holds ex_gen false (ex_zero_tree go_zero_time) (tree st) (exit_fail (errs st)).
 Proof.
-  eexists. split; [apply (sequential_steps ex_gen false false 5%Z 1); apply le_n|].
-  split; [split; reflexivity|]. split; [vm_compute; reflexivity|].
+  split; [vm_compute; reflexivity|]. split; [vm_compute; reflexivity|].
   intros [H _]. specialize (H ([], bs "a_templ.go")). vm_compute in H. discriminate H.
 Qed.
-(* every later time is admitted by wf_tree and the template is generated: one nanosecond after the zero time, long
-   before the Unix epoch, one nanosecond before it, the epoch itself, beyond the range of a 64-bit nanosecond count;
-   and the time given to the written file may itself be negative *)
+(* one nanosecond later the variant and the current code agree *)
+Example C15_ex_zero_time_variant_agrees_later :
+  tree (run_zero_compared ex_gen false false 5%Z (init (lookup (ex_zero_tree (go_zero_time + 1)))) (walk (ex_zero_tree (go_zero_time + 1)))) ([], bs "a_templ.go")
+  = Some (File (bs "code") 5%Z).
+Proof. vm_compute. reflexivity. Qed.
+(* the current code: every time is admitted by wf_tree and the template is generated - long before Go's zero time,
+   the zero time itself, one nanosecond after it, long before the Unix epoch, one nanosecond before it, the epoch
+   itself, beyond the range of a 64-bit nanosecond count; and the time given to the written file may be negative *)
 Example C15_ex_any_time :
-  forall mt, In mt [(go_zero_time + 1)%Z; (-2147483648000000000)%Z; (-1)%Z; 0%Z; 1%Z; 9223372036854775807%Z;
+  forall mt, In mt [(-99999999999000000000)%Z; (go_zero_time - 1)%Z; go_zero_time; (go_zero_time + 1)%Z; (-2147483648000000000)%Z; (-1)%Z; 0%Z; 1%Z; 9223372036854775807%Z;
                     9223372036854775808%Z; 15032385535999999999%Z; 1180591620717411303424%Z] ->
   wf_tree ex_gen true (bs "proj") (ex_zero_tree mt) = true
   /\ tree (run ex_gen false true (-7)%Z (init (lookup (ex_zero_tree mt))) (walk (ex_zero_tree mt))) ([], bs "a_templ.go")
